@@ -631,6 +631,7 @@ struct Visitor : RecursiveASTVisitor<Visitor> {
       else if (isa<CXXConversionDecl>(M)) Kind = "conversion";
       if (M->isVirtual()) O["virtual"] = true;
       if (M->isStatic()) O["static"] = true;
+      O["access"] = M->getAccess() == AS_public ? "public" : M->getAccess() == AS_protected ? "protected" : M->getAccess() == AS_private ? "private" : "none";
       json::Array Ov; for (auto *B : M->overridden_methods()) Ov.push_back(D.usr(B));
       if (!Ov.empty()) O["overrides"] = std::move(Ov);
       if (F->isDefaulted()) O["defaulted"] = true;
